@@ -259,6 +259,8 @@ def gen_schema(rng, want=None, types_upper=None, profile=None):
         elif shape == 'multi_key':
             t2 = rng.choice(['integer', 'string', 'unique_id', 'boolean', 'real'] if profile.get('all_key_types')
                             else ['integer', 'string', 'unique_id'])
+            if rng.random() < 0.4:
+                t2 = idt        # both components of one type: (1, 2) and (2, 1) are different keys
             a = mk_class(extra=[['Id2', t2]], id_type=idt)
             uniques.append({'kind': a['kind'], 'name': 'I2', 'attrs': ['Id', 'Id2']})
             b = mk_class(extra=[['A_Id', idt], ['A_Id2', t2]], id_type=rng.choice(id_types))
